@@ -49,6 +49,11 @@ pub struct Work {
     pub model: Option<&'static str>,
     /// the shape is a random expression (may be discontinuous)
     pub random_expr: bool,
+    /// 2-D only: the field is `shape + n` with `n` a NaN whose bit pattern is
+    /// one of the renderer's own fill encodings (the image format boxes fills
+    /// into NaN payloads; a NaN *value* must never be mistaken for one);
+    /// `(bits, as a constant instead of a bound variable)`
+    pub nan_field: Option<(u32, bool)>,
 }
 
 impl Work {
@@ -242,18 +247,26 @@ pub fn gen_work(ch: &mut Chooser, kind: Kind, tier: Tier) -> Work {
             // sizes beyond 128 and 256 ("all image sizes")
             if ch.odds("long_axis", 1, 60) {
                 // a long thin image: one side 330..=700, the other 1..=24
-                let long = 330 + ch.choose("long_len", 371);
+                // root tiles beyond 256 are legal too (they are trimmed only
+                // when they exceed the image)
+                let tiles = match ch.choose("tiles_large", 7) {
+                    0 => None,
+                    1 => Some(vec![64, 16, 4]),
+                    2 => Some(vec![128, 32, 8]),
+                    3 => Some(vec![32, 8, 2]),
+                    4 => Some(vec![512, 64, 8]),
+                    5 => Some(vec![320, 32, 8]),
+                    _ => Some(vec![384, 96, 12]),
+                };
+                let long = match tiles.as_ref().map(|t| t[0]).filter(|r| *r > 256) {
+                    Some(root) => root as u32 + 1 + ch.choose("long_over_root", 150),
+                    None => 330 + ch.choose("long_len", 371),
+                };
                 let short = 1 + ch.choose("short_len", 24);
                 let (w, h) = if ch.flag("long_is_w") {
                     (long, short)
                 } else {
                     (short, long)
-                };
-                let tiles = match ch.choose("tiles_large", 4) {
-                    0 => None,
-                    1 => Some(vec![64, 16, 4]),
-                    2 => Some(vec![128, 32, 8]),
-                    _ => Some(vec![32, 8, 2]),
                 };
                 (w, h, 0, tiles, 0)
             } else if ch.odds("large_image", 1, 50) {
@@ -290,19 +303,36 @@ pub fn gen_work(ch: &mut Chooser, kind: Kind, tier: Tier) -> Work {
             if ch.odds("long_axis", 1, 60) {
                 // one long axis, the other two short: sizes beyond 128 and
                 // 256 along any one axis at the cost of a small grid
-                let long = 150 + ch.choose("long_len", 181);
-                let a = 1 + ch.choose("short_a", 12);
-                let b = 1 + ch.choose("short_b", 12);
-                let (w, h, d) = match ch.choose("long_which", 3) {
-                    0 => (long, a, b),
-                    1 => (a, long, b),
-                    _ => (a, b, long),
-                };
-                let tiles = match ch.choose("tiles_large", 4) {
+                // (random expressions keep to the small roots: their
+                // reference costs far more per voxel, and it covers one root
+                // tile above the grid too)
+                let tiles = match ch.choose("tiles_large", if random_expr { 4 } else { 7 }) {
                     0 => None,
                     1 => Some(vec![64, 16, 8]),
                     2 => Some(vec![32, 8]),
-                    _ => Some(vec![24, 12, 4]),
+                    3 => Some(vec![24, 12, 4]),
+                    4 => Some(vec![512, 64, 8]),
+                    5 => Some(vec![320, 32, 8]),
+                    _ => Some(vec![288, 96, 12]),
+                };
+                let big_root = tiles.as_ref().map(|t| t[0]).filter(|r| *r > 256);
+                let a = 1 + ch.choose("short_a", 12);
+                let b = 1 + ch.choose("short_b", 12);
+                let (w, h, d) = if let Some(root) = big_root {
+                    // a root tile beyond 256 survives trimming only if the
+                    // image is wider or taller than it; the other sides are
+                    // tiny (the reference also evaluates one root tile above
+                    // the grid)
+                    let (a, b) = (1, 1 + b % 3);
+                    let long = root as u32 + 1 + ch.choose("long_over_root", 40);
+                    if ch.flag("long_is_w") { (long, a, b) } else { (a, long, b) }
+                } else {
+                    let long = 150 + ch.choose("long_len", 181);
+                    match ch.choose("long_which", 3) {
+                        0 => (long, a, b),
+                        1 => (a, long, b),
+                        _ => (a, b, long),
+                    }
                 };
                 (w, h, d, tiles, 0)
             } else if ch.odds("large_image", 1, 150) {
@@ -386,6 +416,17 @@ pub fn gen_work(ch: &mut Chooser, kind: Kind, tier: Tier) -> Work {
     } else {
         None
     };
+    // the reference evaluates every voxel of the grid plus one root tile
+    // above it with `Context::eval` (milliseconds per call on the 600-800
+    // clause models): the bundled models are not combined with root tiles
+    // beyond 64 in 3-D
+    let model_drawn = if kind == Kind::D3
+        && tiles.as_ref().map(|t| t[0] > 64).unwrap_or(false)
+    {
+        None
+    } else {
+        model_drawn
+    };
     // the 600-800 clause models are meshed to depth 3 at most: a depth-5 JIT
     // build of `bear` costs seconds, and a run executes it a dozen times
     let depth = if kind == Kind::Mesh
@@ -395,9 +436,29 @@ pub fn gen_work(ch: &mut Chooser, kind: Kind, tier: Tier) -> Work {
     } else {
         depth
     };
+    let nan_field = if kind == Kind::D2
+        && model_drawn.is_none()
+        && ch.odds("nan_field", 1, 60)
+    {
+        // the bit pattern of a fill pixel, built with the renderer's own
+        // public conversion
+        let fill = pixel::RawDistancePixel::from(pixel::DistancePixel::Fill {
+            depth: ch.choose("nan_fill_depth", 256) as u8,
+            inside: ch.choose("nan_fill_inside", 4) != 0,
+        });
+        // SAFETY: `RawDistancePixel` is `repr(C)` around one `f32`
+        let mut bits: u32 = unsafe { std::mem::transmute(fill) };
+        if ch.flag("nan_sign") {
+            bits |= 0x8000_0000;
+        }
+        Some((bits, ch.flag("nan_as_constant")))
+    } else {
+        None
+    };
     Work {
         kind,
         sg,
+        nan_field,
         backend,
         w,
         h,
@@ -451,6 +512,19 @@ pub fn build(work: &Work) -> Built {
     for (v, val) in vars.iter().zip(&work.sg.var_values) {
         var_map.insert(*v, *val);
     }
+    let (mut vars, mut root) = (vars, root);
+    if let Some((bits, as_const)) = work.nan_field {
+        let n = f32::from_bits(bits);
+        let term = if as_const {
+            ctx.constant(n)
+        } else {
+            let v = Var::new();
+            vars.push(v);
+            var_map.insert(v, n);
+            ctx.var(v)
+        };
+        root = ctx.add(root, term).unwrap();
+    }
     Built {
         ctx,
         root,
@@ -461,8 +535,9 @@ pub fn build(work: &Work) -> Built {
 
 fn shape_vars(b: &Built, work: &Work) -> ShapeVars<f32> {
     let mut sv = ShapeVars::new();
-    for (v, val) in b.vars.iter().zip(&work.sg.var_values) {
-        sv.insert(v.index().unwrap(), *val);
+    let _ = work;
+    for v in &b.vars {
+        sv.insert(v.index().unwrap(), b.var_map[v]);
     }
     sv
 }
@@ -829,6 +904,43 @@ pub fn run_c06(st: &Shared, tier: Tier) -> RunReport {
         st.borrow_mut().log_digest("c06_img", Out::D2(out.clone()).digest());
         for (idx, (px, v)) in out.iter().zip(&reference).enumerate() {
             let (i, j) = (idx as u32 % work.w, idx as u32 / work.w);
+            if work.nan_field.is_some() {
+                // every sample is NaN by construction (a NaN added at the
+                // root): NaN is not negative, so no pixel is inside, and in
+                // pixel-perfect mode every pixel carries a NaN value
+                let is_fill = px >> 40 == 1;
+                let inside = if is_fill {
+                    px & 1 == 1
+                } else {
+                    f32::from_bits(*px as u32) < 0.0
+                };
+                rep.checked_oracle += 1;
+                if inside {
+                    rep.violate(
+                        "C06",
+                        "nan_value_reported_inside",
+                        format!(
+                            "pixel ({i},{j}) inside=true fill={is_fill} but the value there is NaN (bits {:#x})",
+                            work.nan_field.unwrap().0
+                        ),
+                    );
+                    break;
+                }
+                if work.pixel_perfect
+                    && (is_fill || !f32::from_bits(*px as u32).is_nan())
+                {
+                    rep.violate(
+                        "C06",
+                        "pixel_perfect_value",
+                        format!(
+                            "pixel ({i},{j}) fill={is_fill} value {} expected NaN",
+                            f32::from_bits(*px as u32)
+                        ),
+                    );
+                    break;
+                }
+                continue;
+            }
             if v.is_nan() {
                 rep.skipped_oracle += 1;
                 continue;
@@ -942,6 +1054,9 @@ pub fn run_c07(st: &Shared, tier: Tier) -> RunReport {
     let work = gen_work(&mut st.borrow_mut().ch, Kind::D3, tier);
     let b = build(&work);
     rep.sample = work.describe();
+    if std::env::var("VERIF_DEBUG").is_ok() {
+        eprintln!("C07 workload: {}", rep.sample);
+    }
     let (w, h, d) = (work.w as usize, work.h as usize, work.d as usize);
 
     let size = VoxelSize::new(work.w, work.h, work.d);
